@@ -43,7 +43,11 @@ type c07Ghost struct {
 	inQF      bool
 }
 
-func VerifC07(nFull, nThin, async int) {
+// second == 1: a second call (an RPC to the first full-stack node, never answered by the peer)
+// overlaps the quorum call on that node, so that a connection failure finds one call waiting
+// for its reply while another request is being written: whichever of the sender and the
+// receiver goroutine notices the failure first, both calls must be completed.
+func VerifC07(nFull, nThin, async, second int) {
 	g := &c07Ghost{}
 	g.n = nFull + nThin
 	n := g.n
@@ -85,6 +89,24 @@ func VerifC07(nFull, nThin, async int) {
 		return nil, false
 	}
 	ctx := context.Background()
+	var bgArrived *vArrived
+	var bgErr error
+	bgReturned := false
+	if second == 1 {
+		w.peers[0].behave = func(p *vPeer, a *vArrived) {
+			if a.msg.Metadata.Method == "verif.bg" {
+				bgArrived = a // held for ever
+				return
+			}
+			vAtomic(1, p)
+			p.arrived = append(p.arrived, a)
+			vAtomicEnd()
+		}
+		go func() {
+			_, bgErr = w.nodes[0].RPCCall(ctx, CallData{Message: &vMsg{tok: 55}, Method: "verif.bg"})
+			bgReturned = true
+		}()
+	}
 	go func() {
 		var resp protoreflect.ProtoMessage
 		var err error
@@ -162,6 +184,16 @@ func VerifC07(nFull, nThin, async int) {
 		}
 	}
 	vQuiescent()
+	if second == 1 {
+		if bgArrived != nil && bgArrived.st.isBroken {
+			// written, never answered, and the stream it went out on has failed
+			vReach("second-call-on-broken-stream")
+			vAssert(bgReturned, "C07.waiting-call-not-completed-when-connection-breaks")
+		}
+		if bgReturned {
+			vAssert(bgErr != nil, "C05.reply-for-a-call-nobody-answered")
+		}
+	}
 	// every node has produced an outcome: the call must be complete
 	vAssert(g.returned, "C07.call-left-waiting")
 	if healthy >= q {
@@ -181,7 +213,7 @@ func VerifC07(nFull, nThin, async int) {
 	for _, ne := range qe.errors {
 		i := int(ne.nodeID) - 1
 		vAssert(i >= 0 && i < n, "C07.error-names-unknown-node")
-		vAssert(!seen[i], "C07.node-reported-twice")
+		vAssert(!seen[i], "C07.node-reported-twice|C05.more-than-one-answer-per-node")
 		seen[i] = true
 		vAssert(g.kind[i] != c07Healthy, "C07.healthy-node-reported-as-failed")
 		vAssert(ne.cause != nil, "C07.nil-cause")
@@ -197,4 +229,7 @@ func VerifC07(nFull, nThin, async int) {
 	}
 }
 
-func VerifC07Twin(nFull, nThin, async int) { VerifC07(nFull, nThin, async); vFail("C07.twin") }
+func VerifC07Twin(nFull, nThin, async, second int) {
+	VerifC07(nFull, nThin, async, second)
+	vFail("C07.twin")
+}
